@@ -968,3 +968,140 @@ Section Accepted.
         exists lead, line, block. split; [rewrite Hin, Hb; reflexivity|]. auto.
   Qed.
 End Accepted.
+
+(* --- rejections carry 400, 414 or 431 --- *)
+Definition reject_code (c : N) : Prop :=
+  c = rq_sc_bad_request \/ c = rq_sc_uri_too_long \/ c = rq_sc_fields_too_large.
+
+Lemma parse_method_bad_code relaxed s t s1 : parse_method relaxed s t = (s1, None) -> r_code s1 = rq_sc_bad_request.
+Proof.
+  unfold parse_method. destruct (tok_prefix cs_TCHAR req_max_method t) as [[m t1]|].
+  - destruct (tok_skipAll (delim relaxed) t1) as [cnt t2].
+    destruct (skip_delimiter relaxed cnt); intros H; inversion H. reflexivity.
+  - intros H; inversion H. reflexivity.
+Qed.
+
+Lemma skip_trailing_crs_bad_code relaxed s t s1 :
+  skip_trailing_crs relaxed s t = (s1, None) -> r_code s1 = rq_sc_bad_request.
+Proof.
+  unfold skip_trailing_crs. destruct relaxed; [intros H; inversion H|].
+  destruct (tok_skipOneTrailing cs_CR t) as [ok t1]. destruct ok; intros H; inversion H. reflexivity.
+Qed.
+
+Lemma parse_version_bad_code s t s1 : parse_version s t = (s1, None) -> r_code s1 = rq_sc_bad_request.
+Proof.
+  unfold parse_version.
+  destruct (tok_skipSuffix http1p1 t) as [ok11 t11]. destruct ok11; [intros H; inversion H|].
+  destruct (tok_skipSuffix http1p0 t) as [ok10 t10]. destruct ok10; [intros H; inversion H|].
+  destruct (version_suffix t) as [[[majorD minorD] td]|]; [intros H; inversion H|].
+  destruct (r_mid s =? req_m_get); intros H; inversion H. reflexivity.
+Qed.
+
+Lemma parse_uri_bad_code relaxed s t s1 : parse_uri relaxed s t = (s1, None) ->
+  r_code s1 = rq_sc_bad_request \/ r_code s1 = rq_sc_uri_too_long.
+Proof.
+  unfold parse_uri. destruct (tok_prefix (target_chars relaxed) npos t) as [[u t1]|].
+  - destruct (req_max_uri <? lenN u); intros H; inversion H. right; reflexivity.
+  - intros H; inversion H. left; reflexivity.
+Qed.
+
+Lemma parse_line_bad_code relaxed s line s1 : parse_line relaxed s line = (s1, false) ->
+  r_code s1 = rq_sc_bad_request \/ r_code s1 = rq_sc_uri_too_long.
+Proof.
+  unfold parse_line.
+  destruct (parse_method relaxed s line) as [sa [t1|]] eqn:PM;
+    [|intros H; inversion H; subst; left; eapply parse_method_bad_code; exact PM].
+  destruct (skip_trailing_crs relaxed sa t1) as [sb [t2|]] eqn:TC;
+    [|intros H; inversion H; subst; left; eapply skip_trailing_crs_bad_code; exact TC].
+  destruct (parse_version sb t2) as [sc [t3|]] eqn:PV;
+    [|intros H; inversion H; subst; left; eapply parse_version_bad_code; exact PV].
+  destruct (if r_major sc =? 0 then (true, sc, t3)
+            else let '(cnt, t) := tok_skipAllTrailing (delim relaxed) t3 in
+                 if skip_delimiter relaxed cnt then (true, sc, t)
+                 else (false, set_code sc rq_sc_bad_request, t)) as [[ok4 s4] t4] eqn:D.
+  destruct ok4.
+  - destruct (parse_uri relaxed s4 t4) as [s5 [t5|]] eqn:PU;
+      [|intros H; inversion H; subst; eapply parse_uri_bad_code; exact PU].
+    destruct t5; intros H; inversion H. left; reflexivity.
+  - intros H; inversion H; subst s4. left.
+    destruct (r_major sc =? 0); [inversion D|].
+    destruct (tok_skipAllTrailing (delim relaxed) t3) as [cnt t].
+    destruct (skip_delimiter relaxed cnt); inversion D. reflexivity.
+Qed.
+
+Lemma blame_code relaxed s b :
+  r_code (blame relaxed s b) = rq_sc_bad_request \/ r_code (blame relaxed s b) = rq_sc_uri_too_long.
+Proof.
+  unfold blame. destruct (parse_method relaxed s b) as [s1 [t|]] eqn:PM.
+  - right. reflexivity.
+  - left. eapply parse_method_bad_code; exact PM.
+Qed.
+
+Lemma first_line_bad_code relaxed limit s b s1 b1 :
+  first_line relaxed limit s b = (FLbad, s1, b1) ->
+  r_code s1 = rq_sc_bad_request \/ r_code s1 = rq_sc_uri_too_long.
+Proof.
+  unfold first_line.
+  destruct (match find_line b with
+            | Some (line, rest) => if limit <=? lenN line then None else Some (line, rest)
+            | None => None end) as [[line rest]|].
+  - destruct (parse_line relaxed s line) as [s' [|]] eqn:PL; intros H; inversion H; subst.
+    eapply parse_line_bad_code; exact PL.
+  - destruct (limit <=? lenN b); intros H; inversion H; subst. apply blame_code.
+Qed.
+
+Lemma mime_bad_code limit s b c f : r_stage s = SMime ->
+  classify (do_mime limit s b) = Bad (c, f) -> c = rq_sc_fields_too_large.
+Proof.
+  intros Hst. unfold do_mime. rewrite Hst. cbn [stage_eqb].
+  destruct (grab_mime limit s b) as [[ok s1] b1] eqn:G. destruct ok.
+  - pose proof (grab_mime_true_stage _ _ _ _ _ G) as Hd.
+    unfold classify. rewrite !needs_more_stage, Hd. cbn [stage_eqb negb]. intros H; inversion H.
+  - destruct (grab_mime_false _ _ _ _ _ G) as [[Hs1 _]|[Hs1 Hb1]].
+    + subst s1. unfold classify. cbn [r_code set_stage set_code].
+      rewrite N.eqb_refl. rewrite needs_more_stage. cbn. intros H; inversion H. reflexivity.
+    + subst s1 b1. unfold classify.
+      destruct (r_code s =? rq_sc_header_too_large); rewrite needs_more_stage; cbn [r_stage set_code];
+        rewrite Hst; cbn; intros H; inversion H.
+Qed.
+
+Lemma first_bad_code relaxed limit s b c f : r_stage s = SFirst ->
+  classify (do_first relaxed limit s b) = Bad (c, f) -> reject_code c.
+Proof.
+  intros Hst. unfold do_first. rewrite Hst. cbn [stage_eqb].
+  destruct (first_line relaxed limit s b) as [[ret s1] b1] eqn:FL. destruct ret.
+  - intros H. apply mime_bad_code in H; [|reflexivity]. right; right; exact H.
+  - destruct (first_line_more _ _ _ _ _ _ FL) as [-> ->].
+    unfold do_mime. rewrite Hst. cbn [stage_eqb]. unfold classify. rewrite needs_more_stage, Hst. cbn.
+    intros H; inversion H.
+  - unfold classify. cbn. intros H; inversion H; subst.
+    destruct (first_line_bad_code _ _ _ _ _ _ FL) as [K|K]; [left|right; left]; exact K.
+Qed.
+
+Theorem reject_codes relaxed limit s b c f : step relaxed limit s b = Bad (c, f) -> reject_code c.
+Proof.
+  rewrite step_classify. destruct (r_stage s) eqn:Hst.
+  - rewrite do_parse_none by exact Hst. unfold none_tail.
+    destruct (relaxed && list_eqb (none_view relaxed b) [13]).
+    + unfold classify. rewrite needs_more_stage, Hst. cbn. intros H; inversion H.
+    + destruct (none_view relaxed b).
+      * unfold classify. rewrite needs_more_stage, Hst. cbn. intros H; inversion H.
+      * apply first_bad_code. reflexivity.
+  - rewrite do_parse_first by exact Hst. apply first_bad_code. exact Hst.
+  - rewrite do_parse_mime by exact Hst. intros H. apply mime_bad_code in H; [|exact Hst]. right; right; exact H.
+  - unfold do_parse, do_first, do_mime. rewrite Hst. cbn [stage_eqb]. unfold classify.
+    rewrite !needs_more_stage, Hst. cbn. intros H; inversion H.
+Qed.
+
+(* once the request line has been accepted (the parser waits in stage MIME), the only possible
+   rejection is "header fields too large" *)
+Theorem header_block_rejection_is_431 relaxed limit : req_max_method + 2 <= limit ->
+  forall head s keep x c f, fits (head ++ x) ->
+  parse_whole relaxed limit head = More s keep -> r_stage s = SMime ->
+  parse_whole relaxed limit (head ++ x) = Bad (c, f) -> c = rq_sc_fields_too_large.
+Proof.
+  intros Hl head s keep x c f Hf Hm Hst Hb. unfold parse_whole in *.
+  destruct (step_checkpoint_commutes relaxed limit Hl rst0 head s keep x inv_rst0 Hf Hm) as (E & _ & _).
+  rewrite E in Hb. rewrite step_classify, do_parse_mime in Hb by exact Hst.
+  eapply mime_bad_code; eassumption.
+Qed.
